@@ -951,7 +951,7 @@ fn cmd_batch(a: &[String]) -> i32 {
     let first: u64 = a[3].parse().expect("first");
     let n_sc: u64 = a[4].parse().expect("n_scenarios");
     let scheds: u64 = a[5].parse().expect("scheds");
-    let profile = match a[6].as_str() { "full" => Profile::Full, "light" => Profile::Light, "tiny" => Profile::Tiny, "cover" => Profile::Cover, "crash" => Profile::Crash, "ranges" => Profile::Ranges, "pairs" => Profile::Pairs, "xmatch" => Profile::Xmatch, "long" => Profile::Long, "crowd" => Profile::Crowd, _ => { eprintln!("HARNESS-ERROR: bad profile"); return 2; } };
+    let profile = match a[6].as_str() { "full" => Profile::Full, "light" => Profile::Light, "tiny" => Profile::Tiny, "cover" => Profile::Cover, "crash" => Profile::Crash, "ranges" => Profile::Ranges, "pairs" => Profile::Pairs, "xmatch" => Profile::Xmatch, "long" => Profile::Long, "crowd" => Profile::Crowd, "twins" => Profile::Twins, _ => { eprintln!("HARNESS-ERROR: bad profile"); return 2; } };
     let sigfile = &a[7];
     let mut bs = BatchStats::default();
     let mut sigs_all: HashSet<u64> = HashSet::new();
